@@ -109,6 +109,31 @@ CHECKS = {
                      "are cache hits with correct values and evicted entries recompute exactly once.",
                 note="Single actor; access = last cached call touching the entry (atime written by the harness from the "
                      "simulated clock); entries exactly at age_limit may go either way."),
+    "C13": dict(engine="history machine + short-reading raw stream", cat="exploration", ref="DESIGN.md section 3 (C13)",
+                technique="deterministic simulation of a stateful stream: seeded operation histories against a byte-string "
+                          "reference model, with a raw stream underneath that injects legal short reads",
+                text="Every read/readinto/readline/tell/seek result of BinaryZlibFile and BinaryGzipFile is compared with "
+                     "the reference stream over payloads around the 8 KiB block and 1 MiB, all levels, histories <= 25 "
+                     "operations; written streams (random chunkings) must decode with the standard zlib/gzip decoders.",
+                note="The lightest use of the family: a stateful object against a model with a misbehaving-but-legal "
+                     "stream below; sampling, not proof."),
+    "C14": dict(engine="damage sweep with step and memory budget", cat="fault_enumeration", ref="DESIGN.md section 3 (C14)",
+                technique="fault injection on stored bytes: enumeration of truncation points and suffixes of valid files "
+                          "(and of Memory's output.pkl), each load under a deterministic line budget and an address-space "
+                          "limit so that non-termination is a verdict, not a time-out",
+                text="Exhaustive truncation of small files, boundary-biased plus seeded sample for large ones, four kinds "
+                     "of suffix, 7 compressor settings x protocols, from file objects and paths; the damaged load must "
+                     "terminate and raise or return the original object; Memory must recompute and never raise.",
+                note="Non-termination is decided by 50x the clean load's traced lines (+10000); MemoryError under a "
+                     "2 GB address-space limit counts as non-termination."),
+    "C08": dict(engine="interpreter nodes", cat="exploration", ref="DESIGN.md section 3 (C08)",
+                technique="simulation of the sources of nondeterminism joblib.hash must be immune to: several fresh "
+                          "interpreters with seeded PYTHONHASHSEED values and seeded construction histories (insertion "
+                          "order, insert-and-delete, equal-but-distinct strings) hashing the same abstract values",
+                text="All nodes x histories must agree on the md5 and sha1 digest of every generated value; generated "
+                     "near-collision pairs (one leaf or container type changed) must get different digests (sampling).",
+                note="Values without aliased mutable sub-objects; elements of one set / keys of one dict are pairwise "
+                     "unequal across types (1, 1.0, True are one element)."),
 }
 NOT_APPLICABLE = {
     "C03": "pure function of (object, compressor, protocol, target): no schedule, clock, fault or history for a simulator to own; input enumeration is not this technique (its damaged-file cousin is C14, its stateful reader C13)",
